@@ -59,7 +59,14 @@ C03_Reported(r) == (Landed(r) /\ r.scn.in_target = "T") =>
                       /\ Dead(r) /\ NReads(r) >= 1 /\ WTEShape(Rd(r, 1))
                       /\ (r.scn.in_try = "T" => r.obs.fin_done = "T")      \* its finally block ran
 C03_OwnOutcome(r) == (Landed(r) /\ r.scn.target_finished = "T" /\ Dead(r) /\ NReads(r) >= 1) => OwnShape(r, Rd(r, 1))
-C03_NothingElse(r) == (Landed(r) /\ r.scn.target_started = "T" /\ Dead(r) /\ NReads(r) >= 1) => WTEShape(Rd(r, 1)) \/ OwnShape(r, Rd(r, 1))
+\* a persistent worker has "finished on its own" only once its work loop has returned (in_work = "F")
+C03_NothingElse(r) == (Landed(r) /\ r.scn.target_started = "T" /\ Dead(r) /\ NReads(r) >= 1) =>
+                         \/ WTEShape(Rd(r, 1))
+                         \/ OwnShape(r, Rd(r, 1)) /\ (Pers(r) => r.scn.in_work = "F")
+\* terminate() on a worker whose target finished long ago and that nobody has looked at since: own outcome, True, no harm
+C03_AfterFinish(r) == r.scn.fault = "term_after_finish" =>
+                         /\ r.obs.term_ret = "T" /\ r.obs.bystander \in {"ok", "na"}
+                         /\ Dead(r) /\ NReads(r) >= 1 /\ OwnShape(r, Rd(r, 1))
 
 \* ---------------- C06 (persistent) ----------------
 Expected(r) == [k \in 1..r.scn.items |-> k]
